@@ -74,3 +74,13 @@ Proof.
   unfold tiny_ok. intros H. apply andb_true_iff in H as [H1 H2]. split; [|lia].
   revert H2. apply forallb_imp. intros x. unfold tiny_byte, small_byte. lia.
 Qed.
+
+(* character classes are non-NUL bytes *)
+Lemma alpha_small b : is_alpha b = true -> small_byte b = true.
+Proof. unfold is_alpha, is_upper, is_lower, in_range, small_byte. lia. Qed.
+Lemma digit_small b : is_digit b = true -> small_byte b = true.
+Proof. unfold is_digit, in_range, small_byte. lia. Qed.
+Lemma alnum_small b : is_alnum b = true -> small_byte b = true.
+Proof. unfold is_alnum. intros H. apply orb_true_iff in H as [H|H]; [apply alpha_small|apply digit_small]; exact H. Qed.
+Lemma forallb_small_of p t : (forall b, p b = true -> small_byte b = true) -> forallb p t = true -> small t = true.
+Proof. intros H. apply forallb_imp. exact H. Qed.
